@@ -414,7 +414,19 @@ func tailOf(p string, n int) string {
 			if e > len(s) {
 				e = len(s)
 			}
-			return s[i:e]
+			out := s[i:e]
+			// the input the worker announced last before it died
+			if j := strings.LastIndex(s[:i], "VERIF-INPUT "); j >= 0 {
+				line := s[j:i]
+				if k := strings.IndexByte(line, '\n'); k >= 0 {
+					line = line[:k]
+				}
+				if len(line) > 1500 {
+					line = line[:1500]
+				}
+				out += "\n  last announced input: " + line
+			}
+			return out
 		}
 	}
 	if len(s) > n {
